@@ -25,8 +25,7 @@ CHECKS = {
             "Theorems over all forests: a node is dropped iff it has no content (no non-empty text, no force-write marker, no childless "
             "void element), nothing empty is left at any depth, and every content item survives with its order and ancestor chain. "
             "Tied to the code by exhaustive small forests and random forests evaluated in Coq against mammoth.html.strip_empty.",
-            BASE_NOTE + "Conversion-level clause (which elements carry force-write; ignore_empty_paragraphs) is covered by the document-level correspondence.",
-            "DESIGN.md §5 C14"),
+            BASE_NOTE + "For the FINAL forest, through collapse as well: C14_final_forest_no_empty_element (every document, every option combination: no element of the output lacks content beneath it) and C14_content_kept / C14_solid_content_kept (texts, markers and void elements of what the visitor emitted are all in the output, in order; void elements need their style-map tags :fresh - true of the default map - because collapse merges equal neighbours, also in the implementation).", "DESIGN.md §5 C14"),
     "C02": ("proof",
             "Coq proof of the writer round trip (independent lexer recovers the written forest) + in-kernel correspondence with HtmlWriter",
             "Theorems over all forests with plain names: the escape table read from the source is exactly the four specials; escaped "
@@ -94,8 +93,10 @@ CHECKS = {
             "(C10_note_links_resolve, C10_bookmarks_have_ids) in the forest convert returns - after strip_empty and collapse - every note reference the conversion reaches has its own id, an href to the note's id, the note's id "
             "and the back-link's href to the reference, and every bookmark not under a `!` mapping has an element with id = id_prefix ++ name (collapse keeps the set of ids and hrefs because it joins only elements with identical "
             "attributes; strip_empty keeps the attributes of exactly the nodes it keeps). The statement is also evaluated in Coq on every generated package. "
+            "READER HALF of the first sentence (C10_reader_links, C10_docx_links): for every body in the domain of C01's reader theorem the link attached to each live item - innermost open HYPERLINK field, else the enclosing w:hyperlink "
+            "(relationship target with fragment replaced, or # anchor) - is what a specification on the XML alone prescribes, the field state machine included (one instruction buffer, begin / separate / end in reading order). "
             "Oracle: every href in the output is a link target of the document or resolves to an id.",
-            BASE_NOTE, "DESIGN.md §5 C10"),
+            BASE_NOTE, "DESIGN.md §5 C10, §15"),
     "C11": ("proof",
             "Coq proofs of toggle reading and of the run-wrapper equation + end-to-end correspondence + per-run wrapper oracle over all spellings",
             "Theorems: a toggle is on iff present with w:val not false/0; underline/highlight rules; a run is its children wrapped in exactly the paths of the properties that are on "
@@ -134,14 +135,17 @@ CHECKS = {
             "every paragraph block ends in a fresh element (with C04's merge_iff: no two paragraphs share a block); the paragraph's own numId+ilvl win, else the paragraph style's level; find_level follows num -> abstractNum -> numStyleLink. "
             "NESTING THEOREM (any number of blocks, any depth): collapse of the default list paths emits exactly the tag events of a stack machine (item at depth d inside d lists, continues the open list of its type or opens a new one, implicit levels bulleted, any other block closes all lists). "
             "Oracle: the block skeleton of the output equals an independent stack-algorithm specification for random paragraph sequences in body, cells and notes through all three numbering mechanisms; the Coq machine is evaluated against the implementation's output too.",
-            BASE_NOTE + "Domain of the nesting theorem: a paragraph's own inline content has no top-level element called ul/ol; headings/paragraphs map to fresh non-list elements (true of the default map).",
+            BASE_NOTE + "From document elements and from the XML (C08_default_map_classifies: the regenerated default map decides exactly `classify` for every style id, name and numbering; C08_paragraphs_to_blocks, C08_xml_paragraphs_to_blocks: one block per paragraph, in order, "
+            "empty ones dropped by strip_empty, nested as the stack machine says). A numbered paragraph whose style NAME is footnote text / endnote text / annotation text / Footnote / Endnote is a plain p (those default mappings precede the list rules). Domain of the nesting theorem: a paragraph's own inline content has no top-level element called ul/ol; headings/paragraphs map to fresh non-list elements (true of the default map).",
             "DESIGN.md §5 C08"),
     "C12": ("proof",
             "Coq proofs about the archive/XML-entry bookkeeping, the UTF-8 round trip and the file rewrite (truncate flag read from zips.py on every run) + history and fault-injection correspondence",
             "Theorems: utf8 decode(encode s) = s for all scalar strings; the rewritten entries hold the new content, every other entry is unchanged, no name is lost; relationships and content-types hold exactly one style-map entry after any number of embeds "
             "and keep all others in order; with the truncate that the translator finds in update_zip the file is exactly the new archive whatever was there before (no stale bytes) — refuted variant without it; a fault before the first mutating operation leaves the file unchanged. "
             "Harness: histories of growing/shrinking embeds on BytesIO and r+b files with all clauses checked on the real bytes, and an I/O error injected at every file operation.",
-            BASE_NOTE + "zipfile (parse o serialize = id), ElementTree and the OS file layer are runtime. Known findings K1/K2: a fault after the first mutating operation cannot leave the file unchanged (in-place rewrite).",
+            BASE_NOTE + "At package-model level also: C12_read_after_embed, C12_convert_embedded, C12_convert_reembedded - converting the package after embedding s (the XML edits of style_map.py on the model's trees) equals converting the original with style_map = s, "
+            "for html, markdown and raw text, value, messages and failures alike, when the reserved relationship id and entry name are not otherwise used (each part of that hypothesis is necessary: checked counterexamples). "
+            "zipfile (parse o serialize = id), ElementTree and the OS file layer are runtime. Known findings K1/K2: a fault after the first mutating operation cannot leave the file unchanged (in-place rewrite).",
             "DESIGN.md §5 C12"),
     "C15": ("other",
             "history / thread / hash-seed / file-object repeat testing against baselines that are also compared with the pure Coq model; small proved fragment",
